@@ -129,7 +129,7 @@ theorem cellOfRecord_cellRecord {cfg : Cfg} {ci : CellInfo} {nnode : Int} {c : L
     · have hp' : ci.isPyr = false := by simpa using hp
       simp only [hp'] at hx
       have := key x (by simpa using hx); omega
-  rw [if_neg h1, hrn]
+  rw [if_neg (fun h => h1 h.2), hrn]
   have h2 : ¬ (cfg.checkIndex = true ∧ (c.take ci.nodePer).any (fun x => decide (x < 0 ∨ nnode ≤ x)) = true) := by
     rintro ⟨hchk, hany⟩
     rw [List.any_eq_true] at hany
@@ -302,7 +302,7 @@ theorem rdGeoms_flatMap {cfg : Cfg} (v : Nat) {t : Nat} (ht : t ≤ 2) {nnode : 
     · -- node record: no parameters, no gref
       obtain ⟨e1, e2, e3⟩ := h0 hty
       simp only [Nat.lt_irrefl, if_false, List.nil_append, Nat.not_lt_zero, show ¬ (1 < 0) by omega]
-      rw [if_neg hnot, if_neg hchk]
+      rw [if_neg (fun h => hnot h.2), if_neg hchk]
       unfold geomAdd
       rw [hsimp, any_key_false hkey]
       simp only [Bool.false_eq_true, if_false]
@@ -317,7 +317,7 @@ theorem rdGeoms_flatMap {cfg : Cfg} (v : Nat) {t : Nat} (ht : t ≤ 2) {nnode : 
       simp only [Nat.lt_irrefl, if_false, if_true, List.nil_append, Nat.zero_lt_one, Nat.lt_irrefl]
       rw [rdF64_encF64]
       dsimp only
-      rw [if_neg hnot, if_neg hchk]
+      rw [if_neg (fun h => hnot h.2), if_neg hchk]
       unfold geomAdd
       rw [hsimp, any_key_false hkey]
       simp only [Bool.false_eq_true, if_false]
@@ -339,7 +339,7 @@ theorem rdGeoms_flatMap {cfg : Cfg} (v : Nat) {t : Nat} (ht : t ≤ 2) {nnode : 
       dsimp only
       rw [rdF64_encF64]
       dsimp only
-      rw [if_neg hnot, if_neg hchk]
+      rw [if_neg (fun h => hnot h.2), if_neg hchk]
       unfold geomAdd
       rw [hsimp, any_key_false hkey]
       simp only [Bool.false_eq_true, if_false]
